@@ -29,6 +29,9 @@ func init() {
 	verifKinds["c09.write"] = verifC09Write
 	verifKinds["c09.json"] = verifC09JSON
 	verifKinds["c09.jsonrt"] = verifC09JSONRoundTrip
+	verifKinds["c09.wsink"] = verifC09WSink
+	verifKinds["c09.pipe"] = verifC09Pipe
+	verifKinds["c09.jsonwrite"] = verifC09JSONWrite
 }
 
 var errVerifIO = errors.New("verif: scripted I/O error")
@@ -368,6 +371,174 @@ func verifC09JSONRoundTrip(args []vsx) vsx {
 	src := newVerifSrc(vB(out.Bytes()), args[1], args[2], vI(0))
 	defer src.release()
 	return verifC09JSONStream(src)
+}
+
+// verifSink is the scripted io.Writer: the same sink as C09_Model.sink_write (room < 0: never fails).
+type verifSink struct {
+	out  []byte
+	room int
+}
+
+var errVerifSink = errors.New("verif: scripted writer is closed")
+
+func (k *verifSink) Write(p []byte) (int, error) {
+	if k.room < 0 {
+		k.out = append(k.out, p...)
+		return len(p), nil
+	}
+	if len(p) <= k.room {
+		k.out = append(k.out, p...)
+		k.room -= len(p)
+		return len(p), nil
+	}
+	n := k.room
+	k.out = append(k.out, p[:n]...)
+	k.room = 0
+	return n, errVerifSink
+}
+
+// writes the messages with writer number w (0 writeDelimitedMessageRaw, 1 WriteDelimitedMessage,
+// 2 protoEncoder.Encode) until the first error
+func verifC09WriteAll(w int, msgs []vsx, room int) (*verifSink, int, bool, bool) {
+	sink := &verifSink{room: room}
+	enc := NewCodec(false).NewEncoder(sink)
+	n := 0
+	for _, m := range msgs {
+		var err error
+		if w == 0 {
+			err = writeDelimitedMessageRaw(sink, m.b)
+		} else {
+			msg := &emptypb.Empty{}
+			if proto.Unmarshal(m.b, msg) != nil {
+				return nil, 0, false, false
+			}
+			if w == 1 {
+				err = WriteDelimitedMessage(sink, msg)
+			} else {
+				err = enc.Encode(msg)
+			}
+		}
+		if err != nil {
+			return sink, n, true, true
+		}
+		n++
+	}
+	return sink, n, false, true
+}
+
+// (messages room): the three writers on a writer that fails after room bytes; they must agree
+func verifC09WSink(args []vsx) vsx {
+	room := int(args[1].i)
+	sink, n, failed, _ := verifC09WriteAll(0, args[0].l, room)
+	res := vL(vB(sink.out), vInt(n), vBool(failed))
+	for w := 1; w <= 2; w++ {
+		s2, n2, f2, valid := verifC09WriteAll(w, args[0].l, room)
+		if !valid {
+			break // not wire-format messages: raw writer only
+		}
+		if !bytes.Equal(s2.out, sink.out) || n2 != n || f2 != failed {
+			return vErr("writers-disagree")
+		}
+	}
+	return res
+}
+
+// (dir max messages room sched eager): one side encodes until its writer fails, the pipe is then closed,
+// the other side decodes what went through
+func verifC09Pipe(args []vsx) vsx {
+	dir := args[0].boolean()
+	w := 1
+	if dir {
+		w = 2
+	}
+	sink, n, failed, valid := verifC09WriteAll(w, args[2].l, int(args[3].i))
+	if !valid {
+		return vL(vS("bad-case"))
+	}
+	src := newVerifSrc(vB(sink.out), args[4], args[5], vI(0))
+	defer src.release()
+	var read vsx
+	if dir {
+		read = verifC09ReadStream(int(args[1].i), src, false, verifNoTimeout)
+	} else {
+		read = verifC09Dec([]vsx{vB(sink.out), args[4], args[5], vI(0)})
+	}
+	return vL(vInt(n), vBool(failed), read)
+}
+
+// whitespace outside string literals removed (works on truncated text too)
+func verifC09Compact(b []byte) []byte {
+	var out []byte
+	instr, esc := false, false
+	for _, c := range b {
+		if instr {
+			out = append(out, c)
+			switch {
+			case esc:
+				esc = false
+			case c == '\\':
+				esc = true
+			case c == '"':
+				instr = false
+			}
+			continue
+		}
+		if c == ' ' || c == '\t' || c == '\n' || c == '\r' {
+			continue
+		}
+		out = append(out, c)
+		instr = c == '"'
+	}
+	return out
+}
+
+// (values room-class) through jsonEncoder.Encode
+func verifC09JSONWrite(args []vsx) vsx {
+	var msgs []proto.Message
+	total := 0
+	var each []vsx
+	for _, v := range args[0].l {
+		msg := &structpb.Value{}
+		if err := protojson.Unmarshal(v.b, msg); err != nil {
+			return vL(vS("bad-case"))
+		}
+		msgs = append(msgs, msg)
+		alone := &verifSink{room: -1}
+		if err := NewCodec(true).NewEncoder(alone).Encode(msg); err != nil {
+			each = append(each, vErr("write"))
+			continue
+		}
+		total += len(alone.out)
+		last := 0
+		if len(alone.out) > 0 {
+			last = int(alone.out[len(alone.out)-1])
+		}
+		each = append(each, vL(vB(verifC09Compact(alone.out)), vInt(last)))
+	}
+	room := -1
+	switch cls := args[1].i; {
+	case cls < 0:
+	case cls == 0:
+		room = 0
+	case cls == 1:
+		room = total - 1
+	default:
+		room = total - 2
+	}
+	if args[1].i >= 0 && room < 0 {
+		room = 0
+	}
+	sink := &verifSink{room: room}
+	enc := NewCodec(true).NewEncoder(sink)
+	n, failed := 0, false
+	for _, msg := range msgs {
+		if err := enc.Encode(msg); err != nil {
+			failed = true
+			break
+		}
+		n++
+	}
+	return vL(vL(each...), vInt(n), vBool(failed), vB(verifC09Compact(sink.out)))
 }
 
 // TestVerifConsts prints the framing constants the compiled code uses as Coq definitions.
